@@ -164,6 +164,10 @@ def b64s_decode(data):
             raise ValueError(
                 "string argument should contain only ASCII characters"
             ) from None
+    if data.translate(None, _BASE64_BYTES):
+        # NOTE: a2b_base64() would silently skip bytes outside the alphabet,
+        #       and ignore anything after a complete "=" padding group.
+        raise TypeError("invalid base64 character")
     off = len(data) & 3
     if off == 0:
         pass
@@ -179,6 +183,7 @@ def b64s_decode(data):
         raise TypeError(err) from None
 
 
+_BASE64_BYTES = BASE64_CHARS.encode("ascii")
 _BASE64_STRIP = b"=\n"
 _BASE64_PAD1 = b"="
 _BASE64_PAD2 = b"=="
